@@ -2,6 +2,8 @@
 Model kind T: lean/EaselModel/Generated/Dist.lean is regenerated from the working tree by translate/c2lean.py on every
 run; theorems (Props/C10.lean) are about those generated definitions at the `ℝ` instance; the `Float` instance of the
 same definitions is executed (Driver/C10.lean) against the C functions (harness/h_dist.c) bit-for-bit.
+Round 3: 106 functions translated — the mixtures (esl_hxp_*, esl_mixgev_*, esl_vec_DMax/DMin/DLogSum: counted loops as folds,
+parameter structures), the four bracketing + bisection inverses (do-while loops recursing on fuel) and the generic-API wrappers.
 L0 support (NOT a theorem): props/c10_ref.py, mpmath at 50 digits, run as property monitors."""
 import struct, os, sys, math
 from vlib.engine import Prop, Failure
@@ -80,9 +82,9 @@ class C10(Prop):
         "gumbel_cdf_monotone_0_to_1", "gumbel_textbook_laws", "gumbel_code_eq_textbook", "gumbel_code_surv_switches",
         "gumbel_code_invsurv", "wei_textbook_laws", "wei_code_eq_textbook", "wei_outside_support",
         "gev_textbook_laws", "gev_code_eq_textbook", "gev_code_logsurv", "gev_gumbel_branch_partial", "gev_outside_support",
-        "gam_laws_partial", "sxp_laws_partial", "normal_laws_partial", "hxp_mixture_laws", "mixgev_mixture_laws", "vec_extremes", "gam_sxp_outside_support", "pdf_integrates_to_cdf_differences",
+        "gam_laws_partial", "sxp_laws_partial", "normal_laws", "hxp_mixture_laws", "mixgev_mixture_laws", "vec_extremes", "gam_sxp_outside_support", "pdf_integrates_to_cdf_differences",
         "gev_gumbel_branch_distance", "bisection_inverses_generated", "bisection_inverses_bracket", "bisection_inverses_accuracy",
-        "bisection_inverses_terminate", "mixture_log_versions_partial")]
+        "bisection_inverses_terminate", "bisection_inverses_hang_above_sup", "mixture_log_versions_partial", "incomplete_gamma_structure", "generic_api_forwards", "lognormal_laws", "gam_sxp_closed_forms")]
     claimed = True
     technique = ("Lean 4 proof about the C functions translated from the working tree on every run (clang-14 AST -> Lean, polymorphic "
                  "over a numeric class): real-analysis theorems at the R instance, the same definitions executed at Float bit-for-bit "
@@ -93,12 +95,19 @@ class C10(Prop):
                   "The translation is redone from the current source each run, so a changed function is re-proved or the obligation fails.")
     level_note = ("Trusted: Lean kernel + propext/Classical.choice/Quot.sound; clang-14's AST and the translator's operator/libm mapping "
                   "(checked, not proved, by the bit-exact Float run); L0 (binary64 rounding of the real-valued code) is supported only by the "
-                  "bit-exact run plus 50-digit monitors with condition-number-scaled tolerances; erfc/LogGamma/IncompleteGamma are opaque symbols.")
+                  "bit-exact run plus 50-digit monitors with condition-number-scaled tolerances; LogGamma/IncompleteGamma are the hand model of "
+                  "the C algorithm read over R (what they approximate is not proved); erfc over R is the mathematical erfc (Gaussian integral), "
+                  "that esl_stats_erfc agrees with it is L0; the loops of the four bisection inverses carry a fuel argument (none = still running).")
     trusted_base = ["translate/c2lean.py: clang-14 JSON AST -> Lean (operators, libm names, literals from source text); tied by running every "
                     "translated function at Float against the C function bit-for-bit (harness/h_dist.c, ASan+UBSan build of the working tree)",
                     "Lean compiler/runtime and the system libm for the executable driver; gcc -O1 -ffp-contract=off",
                     "mpmath 1.3 at 50 digits for the L0 monitors (closed forms re-stated in props/c10_ref.py)"]
-    assumptions = ["L0: IEEE-754 evaluation of the translated real function is close to its real value - not proved; monitored",
+    assumptions = ["struct parameters (ESL_HYPEREXP, ESL_MIXGEV) are Lean structures with the members the translated functions use; arrays are "
+                   "lists read with getD (default 0.0) and written with List.set: theorems carry K <= length where a store matters; the scratch "
+                   "vector wrk is local to one call (its contents are not carried across calls)",
+                   "bisection termination over R needs cdf < p on [mu, mu+delta] (p not attained at the support edge): otherwise the real loop "
+                   "never stops (proved) and the C code relies on its binary64 no-progress break; fuel 5000 per loop in the driver",
+                   "L0: IEEE-754 evaluation of the translated real function is close to its real value - not proved; monitored",
                    "Real.log is total (log 0 = 0): every theorem through a log carries the guard that makes the C argument positive",
                    "eslINFINITY is an opaque real constant: branches returning +-inf are stated symbolically",
                    "esl_exp_invcdf / esl_wei_invcdf / esl_gumbel_invsurv form 1-p in binary64: p is resolved to 2^-53 absolutely (monitors allow that)"]
@@ -289,7 +298,8 @@ class C10(Prop):
                 x = float(R.reference_all(fam, "p", [rng.uniform(0.05, 0.95)] + par)["invcdf"][0])
                 ops.append("f2 fn=%sinvcdf,%scdf a=%s" % (pre, pre, ",".join(dhex(v) for v in [x] + par)))
         if fam in ("sxp", "gam"):
-            for p in [0.5, rng.random(), rng.choice([1e-6, 1e-3, 0.01, 0.1, 0.9, 0.99, 0.999999])]:
+            # p = 0: the real-number bisection never stops (bisection_inverses_terminate); the C loop must, by its no-progress break
+            for p in [0.5, rng.random(), rng.choice([1e-6, 1e-3, 0.01, 0.1, 0.9, 0.99, 0.999999]), rng.choice([0.0, 1e-300, 1e-17])]:
                 ops.append(op_f(pre + "invcdf", [p] + par))
         if samples and fam in ("sxp", "gam", "lognormal") and rng.random() < 0.5:
             # samplers that do not go by inversion (esl_rnd_Gamma / esl_rnd_Gaussian): Kolmogorov-Smirnov against the closed-form cdf
@@ -366,6 +376,12 @@ class C10(Prop):
         if True:
             for p in (0.5, rng.random(), rng.choice([1e-6, 1e-3, 0.01, 0.1, 0.9, 0.99, 0.9999])):
                 ops.append("mix fam=%s fn=invcdf x=%s %s" % (fam, dhex(p), args))
+            if fam == "hxp":        # the ends of the p range: p = 0 converges onto mu by the no-progress break, p = 1 brackets out to +inf
+                qsum = 0.0
+                for v in mp_["q"]:
+                    qsum += v * 1.0
+                for p in ((0.0, 1.0) if qsum >= 1.0 else (0.0,)):      # (known finding: p above sum q never returns)
+                    ops.append("mix fam=%s fn=invcdf x=%s %s" % (fam, dhex(p), args))
         return {"name": name, "ops": ops, "sticky": 0}
 
     def make_special_case(self, rng, name):
@@ -386,6 +402,33 @@ class C10(Prop):
                     ops.append(op_f("esl_stats_erfc", [sgn * nextafter(t, k)]))
         for _ in range(60):
             ops.append(op_f("esl_stats_erfc", [rng.choice([-1, 1]) * rng.choice([self.logu(rng, 1e-20, 30.0), rng.uniform(0, 7)])]))
+        return {"name": name, "ops": ops, "sticky": 0}
+
+    def make_vec_case(self, rng, name):
+        """esl_vec_DMax / DMin / DLogSum (translated; the mixtures' log versions go through them): ties, a single entry,
+           -inf entries (q_k = 0), a +inf entry, entries on both sides of the 500-window below the maximum"""
+        ops = []
+        for _ in range(30):
+            n = rng.choice([1, 1, 2, 3, 4, 6, 9])
+            top = rng.choice([0.0, -3.0, 700.0, -700.0, rng.uniform(-50, 50), -1e5])
+            v = []
+            for _ in range(n):
+                c = rng.random()
+                if c < 0.45:
+                    v.append(top - abs(rng.gauss(0, 5)))
+                elif c < 0.6:
+                    v.append(top)
+                elif c < 0.75:
+                    v.append(nextafter(top - 500.0, rng.choice([-2, -1, 0, 1, 2])))
+                elif c < 0.85:
+                    v.append(-math.inf)
+                elif c < 0.88:
+                    v.append(math.inf)
+                else:
+                    v.append(top - rng.uniform(400, 800))
+            rng.shuffle(v)
+            for fn in ("DMax", "DMin", "DLogSum"):
+                ops.append("vec fn=%s v=%s" % (fn, ",".join(dhex(x) for x in v)))
         return {"name": name, "ops": ops, "sticky": 0}
 
     def corpus(self, ctx):
@@ -433,6 +476,10 @@ class C10(Prop):
         out.append({"name": "exact-edges", "ops": [o for o, _ in exp_cases], "expect": [dhex(v) for _, v in exp_cases]})
         for key, ops in REGRESSION:
             out.append({"name": "fixed-" + key, "ops": ops})
+        # known finding (known_findings.d/C10.json): p above the largest cdf value -> the right bracketing loop never ends
+        # (both sides answer `hang`); generated cases keep out of that region (p = 1 only when the coefficients sum to >= 1)
+        out.append({"name": "known-invcdf-p-above-cdf-max", "known_key": "C10:mixture_invcdf:p-above-cdf-max",
+                    "ops": [_mixop("hxp", "invcdf", 1.0, mu=[0.0], q=[0.1, 0.2, 0.7 - 1e-16], l=[1.0, 2.0, 3.0])]})
         out.append({"name": "fixed-gev-log1p", "ops": [op_f("esl_gev_" + w, [x, 0.0, 1.0, al]) for al in (1e-12, -1e-12, 1.5e-12, 1e-10)
                                                        for x in (-1.0, 1.0, -10.0, nextafter(-10.0, 1)) for w in ("cdf", "logcdf", "surv", "pdf")] +
                     [op_f("esl_gev_invcdf", [p, 0.0, 1.0, al]) for al in (2e-12, -2e-12, 1e-10) for p in (0.5, 0.01, 0.99)]})
@@ -458,6 +505,8 @@ class C10(Prop):
         for i in range(30 if ctx.tier == "quick" else 300):
             fam = ("hxp", "mixgev")[i % 2]
             out.append(self.make_mix_case(fam, rng, "mix%d-%s" % (i, fam)))
+        for i in range(4 if ctx.tier == "quick" else 40):
+            out.append(self.make_vec_case(rng, "vec%d" % i))
         return out
 
     # ------------------------------------------------------------------------------------------
@@ -495,6 +544,25 @@ class C10(Prop):
             res = parse_out(line)
             if res is None:
                 return Failure("monitor", "operation %r answered %r" % (op, line))
+            if kind == "vec":
+                v = [unhex(t) for t in kv["v"].split(",")]
+                r = res[0]
+                if kv["fn"] in ("DMax", "DMin"):
+                    want = max(v) if kv["fn"] == "DMax" else min(v)
+                    if r != want:
+                        return Failure("monitor", "esl_vec_%s(%r) = %r, the extreme entry is %r" % (kv["fn"], v, r, want))
+                else:
+                    m = max(v)
+                    if m == math.inf or m == -math.inf:
+                        want = m
+                        ok = (r == want)
+                    else:
+                        want = m + float(R.mpmath.log(sum(R.mpmath.exp(R.mpmath.mpf(x) - m) for x in v if x > -math.inf)))
+                        # what the 500-window drops is below e^-500 of the largest term
+                        ok = abs(r - want) <= 1e-13 * max(1.0, abs(want))
+                    if not ok:
+                        return Failure("monitor", "esl_vec_DLogSum(%r) = %r but log sum exp = %r" % (v, r, want))
+                continue
             if kind == "mix":
                 fam, which = kv["fam"], kv["fn"]
                 L = lambda k: [unhex(t) for t in kv[k].split(",")]
@@ -508,6 +576,15 @@ class C10(Prop):
                     comps = [(q[k], "gev", [mus[k], lam[k], als[k]]) for k in range(len(q))]
                     par = ("mixgev", kv["q"], kv["mu"], kv["l"], kv["al"])
                 x = unhex(kv["x"])
+                if which == "invcdf" and fam == "hxp" and x in (0.0, 1.0):
+                    xr = res[0]
+                    if x == 0.0 and not (mu0 <= xr <= nextafter(mu0, 4) or (mu0 == 0.0 and 0.0 <= xr <= 1e-300)):
+                        return Failure("monitor", "esl_hxp_invcdf(0) = %r, the support edge is %r; %s" % (xr, mu0, op))
+                    # p = 1: the bracket runs out to where the binary64 cdf rounds to 1 (or to +inf)
+                    if x == 1.0 and not (xr == math.inf or (xr >= mu0 and R.mix_reference(xr, comps)["cdf"][0] >= 1 - 1e-14)):
+                        return Failure("monitor", "esl_hxp_invcdf(1) = %r, where the cdf is still %s; %s" % (
+                            xr, R.mpmath.nstr(R.mix_reference(xr, comps)["cdf"][0], 17), op))
+                    continue
                 if which == "invcdf":
                     xr, p = res[0], x
                     cen = mu0 if fam == "hxp" else 0.0
@@ -534,6 +611,10 @@ class C10(Prop):
                 if fam is None:
                     continue
                 fx = R.FAMILY[fam]
+                if which == "invcdf" and fam in ("sxp", "gam") and a[0] == 0.0:
+                    if not (a[1] <= res[0] <= nextafter(a[1], 4) or (a[1] == 0.0 and 0.0 <= res[0] <= 1e-300)):
+                        return Failure("monitor", "%s(0; %r) = %r, the support edge is %r" % (kv["fn"], a[1:], res[0], a[1]))
+                    continue
                 if which == "invcdf" and fam in ("sxp", "gam"):       # bisection to 1e-6
                     xr, p = res[0], a[0]
                     d = 2.5e-6 * abs(xr - a[1]) + 4 * 2.0 ** -52 * max(abs(xr), abs(a[1]))
@@ -680,12 +761,12 @@ class C10(Prop):
     def extra_evidence(self, ctx):
         st = getattr(self, "mstats", {"ops": {}, "values": {}})
         return {"translated_functions": getattr(self, "tinfo", {}).get("functions", []),
+                "translated_partial_functions_with_fuel": getattr(self, "tinfo", {}).get("partial", []),
+                "translated_structs": getattr(self, "tinfo", {}).get("structs", {}),
                 "hand_modelled_functions": ["esl_stats_LogGamma", "esl_stats_IncompleteGamma", "esl_stats_erfc (coefficients dumped from source)",
-                                            "esl_vec_DMax", "esl_vec_DLogSum", "esl_hxp_{pdf,logpdf,cdf,logcdf,surv,logsurv,Sample}",
-                                            "esl_mixgev_{pdf,logpdf,cdf,logcdf,surv,logsurv,Sample}", "esl_rnd_DChoose"],
-                "hand_modelled_inverses": ["esl_sxp_invcdf", "esl_gam_invcdf", "esl_hxp_invcdf", "esl_mixgev_invcdf (Dist/Bisect.lean: bracketing + bisection loops with fuel)"],
-                "not_covered": ["esl_sxp_Sample, esl_gam_Sample, esl_lognormal_Sample (esl_rnd_Gamma / esl_rnd_Gaussian not modelled)",
-                                "generic_* wrappers (one-line forwards)", "esl_stats_Psi / Trigamma (used by the fitting code, C11)"],
+                                            "esl_rnd_DChoose + the two draws of esl_hxp_Sample / esl_mixgev_Sample"],
+                "not_covered": ["esl_sxp_Sample, esl_gam_Sample, esl_lognormal_Sample (esl_rnd_Gamma / esl_rnd_Gaussian not modelled; Kolmogorov-Smirnov monitor)",
+                                "esl_stats_Psi / Trigamma / DMean / ChiSquaredTest (status + out-parameter functions, used by the fitting code, C11)"],
                 "literals_from_source_text": getattr(self, "tinfo", {}).get("literals", []),
                 "hand_model_ops_equal_within_tolerance_but_not_bitwise": getattr(self, "hdrift", [0])[0],
                 "input_distribution": {"ops_by_function": st["ops"], "returned_values": st["values"]}}
